@@ -49,6 +49,7 @@ def directed():
     out.append(("addremove", ["--enable=unusedFunction"], [a, r1, b, r1, ("edit", ("remove", "a.c")), r2, a, r1]))
     out.append(("rename", [], [a, r1, ("edit", ("rename", "a.c", "sub/a.c")), r1]))
     out.append(("hdrmove", [], [a, r1, ("edit", ("hdr_move",)), r1]))
+    out.append(("staticfn", ["--enable=style,unusedFunction"], [("edit", ("add", "m.c", S("fm", extra=True))), r1, r1]))
     out.append(("suffixclash", ["--enable=unusedFunction"], [("edit", ("add", "io.c", S("fio"))), ("edit", ("add", "stdio.c", S("fstdio"))), r1, r1]))
     return out
 
